@@ -427,52 +427,52 @@ func CLAIM2(e *Env) {
 				bad = "ClaimsProperty is not asked about the current property of the outer loop"
 			}
 		}
-		var claimed *ssa.Phi
+		// the claimed flag: the boolean that guards the build, negated
+		var claimed ssa.Value
 		if bad == "" {
-			// claimed flag: bool phi at the inner header: false from outside (but inside outer), true under c
-			for _, in := range inner.Header.Instrs {
-				phi, ok := in.(*ssa.Phi)
-				if !ok {
+			for _, l := range CondsAt(build.Block()) {
+				bt, isB := l.V.Type().Underlying().(*types.Basic)
+				if !isB || bt.Kind() != types.Bool {
 					continue
 				}
-				if b, isB := phi.Type().Underlying().(*types.Basic); !isB || b.Kind() != types.Bool {
+				if _, isPhi := l.V.(*ssa.Phi); !isPhi && l.V != ssa.Value(c) {
 					continue
 				}
-				claimed = phi
+				// it must depend on the ClaimsProperty answer
+				dep := false
+				for _, lf := range PhiLeaves(l.V, nil) {
+					_ = lf
+					dep = true
+				}
+				if !dep {
+					continue
+				}
+				if l.Pos {
+					bad = "the scalar reader is built for properties that ARE claimed (and unclaimed ones are dropped)"
+				}
+				claimed = l.V
 			}
-			if claimed == nil {
-				bad = "the result of ClaimsProperty is not accumulated into a flag"
+			if claimed == nil && bad == "" {
+				bad = "building the scalar reader is not guarded by a flag accumulated from ClaimsProperty"
 			}
 		}
 		if bad == "" {
-			sawTrue := false
-			for i, ed := range claimed.Edges {
-				pred := claimed.Block().Preds[i]
-				if !inner.Blocks[pred] {
-					if k, ok := ed.(*ssa.Const); !ok || k.Value == nil || k.Value.String() != "false" {
-						bad = "the claimed flag is not reset to false for each property (a property following a claimed one is never loaded)"
+			sawTrue, sawFalse := false, false
+			for _, lf := range PhiLeaves(claimed, nil) {
+				k, ok := lf.V.(*ssa.Const)
+				if !ok || k.Value == nil {
+					if lf.V == ssa.Value(c) {
+						sawTrue, sawFalse = true, true // the answer itself is the flag
+						continue
 					}
-					if !outer.Blocks[pred] {
-						bad = "the claimed flag is initialised outside the loop over properties"
-					}
+					bad = "the claimed flag is computed from something other than the ClaimsProperty answers"
 					continue
 				}
-				for _, lf := range PhiLeaves(ed, func(p *ssa.Phi) bool { return p == claimed }) {
-					if lf.V == claimed {
-						continue
-					}
-					k, ok := lf.V.(*ssa.Const)
-					if !ok || k.Value == nil || k.Value.String() != "true" {
-						bad = "the claimed flag is updated with something other than `true`"
-						continue
-					}
-					from, to := lf.From, lf.To
-					if from == nil {
-						from, to = pred, claimed.Block()
-					}
+				switch k.Value.String() {
+				case "true":
 					okLit := false
-					for _, l := range CondsOnEdge(from, to) {
-						if l.V == c && l.Pos {
+					for _, l := range LeafConds(lf, nil) {
+						if l.V == ssa.Value(c) && l.Pos {
 							okLit = true
 						}
 					}
@@ -481,33 +481,27 @@ func CLAIM2(e *Env) {
 					} else {
 						sawTrue = true
 					}
+				case "false":
+					sawFalse = true
+					if lf.From != nil && !outer.Blocks[lf.From] {
+						bad = "the claimed flag is not reset to false for each property: once a property is claimed, no later property is loaded"
+					}
 				}
 			}
 			if !sawTrue && bad == "" {
 				bad = "the claimed flag is never set: every property is loaded a second time as a scalar attribute"
 			}
-		}
-		if bad == "" {
-			// build under !claimed
-			okGuard := false
-			for _, l := range CondsAt(build.Block()) {
-				if l.V == claimed {
-					if l.Pos {
-						bad = "the scalar reader is built for properties that ARE claimed (and unclaimed ones are dropped)"
-					} else {
-						okGuard = true
-					}
-				}
-			}
-			if !okGuard && bad == "" {
-				bad = "building the scalar reader is not guarded by the claimed flag"
+			if !sawFalse && bad == "" {
+				bad = "the claimed flag is never false: extra properties are dropped"
 			}
 		}
 		if bad == "" {
 			// reader literal names the same property
 			recv := RecvArg(build.Common())
 			okName := false
-			for _, site := range literalSites(fn, func(t *types.Named) bool { return t.Obj().Name() == "Vector1PropertyReader" && t.Obj().Pkg().Path() == PlyPath }) {
+			for _, site := range literalSites(fn, func(t *types.Named) bool {
+				return t.Obj().Name() == "Vector1PropertyReader" && t.Obj().Pkg().Path() == PlyPath
+			}) {
 				u, isLoad := recv.(*ssa.UnOp)
 				if !isLoad || u.X != site {
 					continue
